@@ -32,7 +32,7 @@ def run(ctx):
     if not proofs["ok"]:
         broken.append("proof obligations of Props/%s.v do not check: %s" % (pid, (proofs.get("broken_files") or proofs.get("nonstd_axioms") or proofs["log"][-800:])))
     recs = []
-    n = ctx.n(350, 5000)
+    n = ctx.n(300, 5000)
     h1 = vf.go_harness(ctx, "index", "TestVerifC22$", ["index/zz_verif_c22_test.go", "index/zz_verif_c22gen_test.go"], n,
                        timeout=600 if ctx.tier == "quick" else 3000, out_name="out-index.jsonl")
     if h1["rc"] != 0:
@@ -44,7 +44,7 @@ def run(ctx):
     with open(gp, "w") as f:
         f.write(gen)
     if os.path.exists(os.path.join(vf.HARNESS, "overlay", "search", "zz_verif_c22_test.go")):
-        h2 = vf.go_harness(ctx, "search", "TestVerifC22", ["search/zz_verif_c22_test.go"], ctx.n(250, 4000),
+        h2 = vf.go_harness(ctx, "search", "TestVerifC22", ["search/zz_verif_c22_test.go"], ctx.n(200, 4000),
                            timeout=600 if ctx.tier == "quick" else 3000, out_name="out-search.jsonl",
                            extra_replace={os.path.join(vf.REPO, "search", "zz_verif_c22gen_test.go"): gp})
         if h2["rc"] != 0:
